@@ -679,7 +679,8 @@ def eng_racing_namespace(ctx):
                    monitor=M.mon_racing_namespace, always_monitor=True)
 
 
-reg("C10", [eng_control_random(M.mon_namespace, {"CT", "CS"}, always=True), eng_names_echo, eng_racing_namespace],
+reg("C10", [lambda ctx: eng_control_enum(ctx), eng_control_random(M.mon_namespace, {"CT", "CS"}, always=True), eng_names_echo,
+            eng_racing_namespace],
     rule="random control-plane scripts over 2 projects x 3 topics x 4 subscriptions with deletions, re-creations, "
          "cross-project and malformed names, interleaved with data-plane calls; racing-namespace: two or three clients "
          "that each do create-then-get or delete-then-get on ONE name, started without letting the runtime settle "
@@ -696,7 +697,7 @@ reg("C10", [eng_control_random(M.mon_namespace, {"CT", "CS"}, always=True), eng_
                "that has returned is observed by the topic at every later moment (C10c_create_observed); racing creates / "
                "deletes of one name are exercised by the racing-namespace stream.")
 
-reg("C11", [eng_control_random(M.mon_namespace, {"DT", "DS"}, always=True),
+reg("C11", [lambda ctx: eng_control_enum(ctx), eng_control_random(M.mon_namespace, {"DT", "DS"}, always=True),
             eng_data_random(M.mon_namespace, {"DS", "DT"}, relevant=CTL_OPS | DATA_OPS, tag="data-random", always=True),
             lambda ctx: eng_create_delete_race(ctx), lambda ctx: eng_racestress(ctx), lambda ctx: eng_abandon(ctx)],
     rule="random scripts deleting and re-creating topics and subscriptions with publishes and pulls in between; "
@@ -776,7 +777,8 @@ def eng_capacity_drain(ctx):
                    monitor=mon_c01, always_monitor=True)
 
 
-reg("C01", [eng_data_random(mon_c01, {"PUB"}, streams=True, tag="data-stream-drain", drain=True, always=True),
+reg("C01", [lambda ctx: eng_control_enum(ctx),
+            eng_data_random(mon_c01, {"PUB"}, streams=True, tag="data-stream-drain", drain=True, always=True),
             eng_control_random(mon_c01, {"PUB"}, drain=True, always=True), eng_data_enum(M.mon_payload, {"PUB"}),
             eng_capacity_drain],
     rule="random scripts with several subscriptions per topic, streams, nack/expiry cycles, deletions and re-creations of "
@@ -1030,6 +1032,18 @@ def eng_cs(ctx):
         cid, ops = cases[0]
         st["samples"].append({"stream": "concsub-polls", "case": cid, "ops": [decode_line(o)[:120] for o in ops[:14]],
                               "impl": [decode_line(l)[:120] for l in impl.get(cid, [])[:14]]})
+    return out
+
+
+def mon_lifecycle(ops, lines):
+    return M.mon_namespace(ops, lines) or M.mon_fanout(ops, lines) or M.mon_payload(ops, lines)
+
+
+def eng_control_enum(ctx):
+    cases = gen.control_enum_cases(ctx.n(3, 4))
+    out = ctx.seq("control-enum", cases, relevant=CTL_OPS | DATA_OPS, triggers={"DS", "DT"}, monitor=mon_lifecycle,
+                  always_monitor=True)
+    ctx.stats["streams"]["control-enum"]["exhaustive_depth"] = ctx.n(3, 4)
     return out
 
 
